@@ -446,9 +446,9 @@ Definition reads_as (ln : string) (st : stmt) : Prop :=
 
 Lemma scan_lines lines stmts :
   Forall2 reads_as lines stmts ->
-  forall k rest, scan (List.length stmts + k) Bash (append (sconcat lines) rest) = stmts ++ scan k Bash rest.
+  forall cmd k rest, scan (List.length stmts + k) Bash cmd (append (sconcat lines) rest) = stmts ++ scan k Bash cmd rest.
 Proof.
-  induction 1 as [|ln st lines stmts [Hne [Hnf Hrd]] _ IH]; intros k rest; [reflexivity|].
+  induction 1 as [|ln st lines stmts [Hne [Hnf Hrd]] _ IH]; intros cmd k rest; [reflexivity|].
   cbn [sconcat List.length Nat.add]. rewrite append_assoc. cbn [scan].
   destruct (ln ++ sconcat lines ++ rest)%string eqn:E.
   - destruct ln; [congruence | discriminate E].
@@ -638,12 +638,12 @@ Lemma all_admissible_bash l : Forall (admissible Bash) l.
 Proof. induction l; constructor; [apply admissible_bash | assumption]. Qed.
 
 Theorem bash_tables_roundtrip t :
-  forall k rest,
-    scan (List.length (table_stmts t) + k) Bash
+  forall cmd k rest,
+    scan (List.length (table_stmts t) + k) Bash cmd
          (append (write_literals t) (append (write_match_transitions t) (append (write_completion_tables t) rest)))
-    = table_stmts t ++ scan k Bash rest.
+    = table_stmts t ++ scan k Bash cmd rest.
 Proof.
-  intros k rest. pose proof (all_admissible_bash (map (fun l => snd (fst l)) (t_literals t))) as Hadm.
+  intros cmd k rest. pose proof (all_admissible_bash (map (fun l => snd (fst l)) (t_literals t))) as Hadm.
   rewrite write_literals_line, write_match_transitions_lines, write_completion_tables_lines.
   rewrite <- (append_assoc (sconcat (match_lines t))). rewrite <- sconcat_app. rewrite <- append_assoc.
   change (literals_line (map (fun l => snd (fst l)) (t_literals t)) ++ sconcat (match_lines t ++ completion_lines t))%string
@@ -681,11 +681,11 @@ Proof.
   rewrite (level_rows_kcell write_completion_script_11) by (intros [s ids]; apply tpl_subcell). apply tpl_sublevel.
 Qed.
 
-Theorem bash_subword_rows_roundtrip (m : list (N * list (N * N))) k rest :
-  scan (List.length m + k) Bash
+Theorem bash_subword_rows_roundtrip (m : list (N * list (N * N))) cmd k rest :
+  scan (List.length m + k) Bash cmd
        (append (sconcat (map (fun row => fmtln write_completion_script_5
                                 [("state", sN (fst row)); ("state_transitions", join " " (map kv (snd row)))]) m)) rest)
-  = row_stmts "subword_transitions" m ++ scan k Bash rest.
+  = row_stmts "subword_transitions" m ++ scan k Bash cmd rest.
 Proof.
   rewrite (sconcat_map_fmtln _ (fun row => row_line "subword_transitions" (fst row) (snd row)))
     by (intros [s row]; apply tpl_subrow).
@@ -693,10 +693,10 @@ Proof.
   apply (scan_lines (row_lines "subword_transitions" m)). apply reads_rows. auto.
 Qed.
 
-Theorem bash_subword_levels_roundtrip levels k rest :
-  scan (List.length levels + k) Bash
+Theorem bash_subword_levels_roundtrip levels cmd k rest :
+  scan (List.length levels + k) Bash cmd
        (append (write_levels write_completion_script_11 write_completion_script_12 levels) rest)
-  = level_stmts "subword_transitions_level_" levels ++ scan k Bash rest.
+  = level_stmts "subword_transitions_level_" levels ++ scan k Bash cmd rest.
 Proof.
   rewrite write_levels_sub.
   replace (List.length levels) with (List.length (level_stmts "subword_transitions_level_" levels)).
